@@ -56,6 +56,19 @@ CLAIMED = {
  'C19': ('model_checking', '3 (C19)',
          'Proxy answer = HTTP/1.1 + 3 symbolic status bytes + solver-chosen tail/segmentation/fault over a grid of proxy URL shapes; ordered I/O-log oracle: CONNECT names exactly '
          'host:port, nothing else written before the complete answer, only status 200 starts the handshake (TLS wrap iff wss, Connected.proxy), otherwise exactly Connecting, ConnectFail.'),
+ 'C15': ('model_checking', '3 (C15)',
+         'The real run()/_regular/_check_*/_on_ready/_on_pong/close run with time.time() a symbolic non-decreasing Real that advances only in the selector wait by a symbolic '
+         '0<=dt<=poll; poll/ping_timeout/close_timeout symbolic reals, ping_rate on a grid; per iteration a solver-chosen server action, application close() at a solver-chosen event; '
+         'obligations over virtual timestamps: Poll cadence p<=gap<2p, ping grid (timely, never twice per period, none for r=0 or while closing), Unresponsive iff >t at the first '
+         'housekeeping instant, forced disconnect in [c, c+p], never for c None/0.'),
+ 'C16': ('model_checking', '3 (C16)',
+         'Real persist() over a real WebSocket: 7 attempt outcomes chosen by solver variables, random() a symbolic Real in [0,1), min_wait<=max_wait symbolic reals, exit_event.wait '
+         'symbolic; obligations: one BackOff per attempt, delay == wait argument, bounds, delay == min_wait + u*min(max_wait-min_wait, 2^k) exactly (so too small a window is also sat), '
+         'identity pass-through, connect() kwargs, ends iff wait returned True.'),
+ 'C18': ('model_checking', '3 (C18), 6',
+         'REDUCED SCOPE (inductive step): real SelectorBase.wait / PollSelector.wait_readable / run() loop body / _recv against an abstract transport with two symbolic counters '
+         '(kernel bytes k, TLS-decrypted bytes q) and a symbolic record size: an iteration blocks only when k=q=0, otherwise consumes >=1 byte in zero virtual time, count in range, '
+         'no byte lost; induction on iterations gives draining of any burst. Kernel selectors, real ssl buffering and loopback runs are outside (not encodable).'),
 }
 
 REPLAY = './vcheck {prop} --replay {{path}}'
